@@ -1,6 +1,7 @@
 # coding=utf-8
 """Run generated programs through the real code and record traces."""
 from __future__ import absolute_import
+from harness.fwread import alpha_cmd
 from harness.rig import FilterRig, alpha_state
 
 Q_TRACE = 100      # disc tests divide native (1e-4 mm) differences by 100 (0.01 mm)
@@ -42,6 +43,8 @@ def run_filter_program(prog, trace_id, keep_state=True):
         "q": Q_TRACE,
         "tol": TOL_TRACE,
         "cf": contract_cf(prog.cfg),
+        "cfx": {"enter": [alpha_cmd(x, {"kind": "txt"}) for x in (prog.cfg.get("enter") or [])],
+                "exit": [alpha_cmd(x, {"kind": "txt"}) for x in (prog.cfg.get("exit") or [])]},
         "ev": events,
     }
 
